@@ -201,7 +201,8 @@ def poison_strategy():
                          C("set_bounds", "feed-rate", "a", 5)]).map(
             lambda c: K("set_bounds_invalid", c)),
     ]
-    return st.one_of(*opts)
+    from vf.hist import equally
+    return equally(*opts)
 
 
 def setup_strategy():
@@ -228,7 +229,9 @@ def strategy(n):
     valid = sh.call_strategy()
     inter = sh.call_strategy(moves=False, extras=False)
     rep = st.just({"op": "repeat"})
-    item = st.one_of(valid, inter, inter, rep, poison_strategy(), poison_strategy(), setup_strategy().filter(bool).map(lambda l: l[0]))
+    from vf.hist import weighted
+    item = weighted((4, valid), (2, inter), (1, rep), (6, poison_strategy()),
+                    (1, setup_strategy().filter(bool).map(lambda l: l[0])))
     # limits tightened while the head is parked outside them on one axis, then a
     # command that does not mention that axis: it still targets a point outside
     small = st.integers(-16, 16).map(lambda k: k / 8.0)
